@@ -110,7 +110,50 @@ class FactorHooks:
             return self.reduce(eng, st, args[0], kw['axis'], node, short)
         if name == 'Factor' and len(args) == 2 and isinstance(args[1], NDV):
             return self.construct(eng, st, args[0], args[1], node)
+        if recv is None and name == 'slice' and len(args) == 1 and isinstance(args[0], E.Const) and args[0].v is None:
+            k = E.Tup([E.Const(None), E.Const(None), E.Const(None)])
+            k.kind = 'slice'
+            return k
         return NotImplemented
+
+    # ---- basic indexing  a[(i0 | slice(None), ...)]
+    @staticmethod
+    def _is_full_slice(x):
+        """z3 Bool: the index element is slice(None) (keeps its axis) rather than an integer (removes it); None if unknown."""
+        if isinstance(x, E.Tup) and getattr(x, 'kind', '') == 'slice' and all(isinstance(i, E.Const) and i.v is None for i in x.items):
+            return E.TRUE
+        if isinstance(x, E.Num):
+            return E.FALSE
+        g = getattr(x, 'ghost', None) or {}
+        if 'ite' in g:
+            c, a, b = g['ite']
+            fa, fb = FactorHooks._is_full_slice(a), FactorHooks._is_full_slice(b)
+            if fa is not None and fb is not None:
+                return z3.If(c, fa, fb)
+        return None
+
+    def getitem(self, eng, st, o, k, node):
+        if not (isinstance(o, NDV) and isinstance(k, Arr)):
+            return NotImplemented
+        return self.index(eng, st, o, k, node)
+
+    def index(self, eng, st, v, idx, node):
+        """a[t] for a tuple t holding one entry per axis, each an integer or slice(None): the axes indexed by an integer
+        disappear, the others keep their order (numpy basic indexing; integers in range are the caller's business)."""
+        s1 = st.fork()
+        eng.oblige(s1, 'index/one-entry-per-axis@L%d' % node.lineno, idx.n == v.labels.n, kind='numpy-precondition')
+        st.assume(idx.n == v.labels.n)
+
+        def keep(e, s, i):
+            f = self._is_full_slice(idx.at(e, s, i))
+            if f is None:
+                raise E.Unsupported('index entry that is neither an integer nor slice(None)')
+            return f
+        labels = eng.make_filter(st, v.labels, keep, name='labels-kept')
+        labels.axes, labels.keep_idx, labels.of = None, keep, v      # for the kept-positions lemma (pv/contracts/factor.py)
+        pos = labels.pos
+        dims = Arr(labels.n, lambda e, s, j: v.dims.at(e, s, pos(j)), name='dims-kept')
+        return NDV(labels, dims, eng.fresh('indexed', V))
 
     def construct(self, eng, st, dom, v, node):
         attrs = eng.getattr(st, dom, 'attrs', node)
